@@ -494,6 +494,27 @@ def run(ctx):
         ctx.violate("ws.defuse", f"hf|{hf}|register", f"{hf} is used in parser.txt but not registered in register.txt")
     for hf in sorted(imports ^ registered):
         ctx.violate("ws.defuse", f"hf|{hf}|mismatch", f"{hf} is {'declared but not registered' if hf in imports else 'registered but not declared'}")
+    # ---- registered field types can hold what the fragments add to them ------------------------------------------------------
+    FT_BYTES = {"FT_UINT8": 1, "FT_UINT16": 2, "FT_UINT24": 3, "FT_UINT32": 4, "FT_UINT64": 8, "FT_INT8": 1, "FT_INT16": 2, "FT_INT32": 4, "FT_INT64": 8, "FT_FLOAT": 4}
+    HF_WIDTH_EXCEPTIONS = {"hf_wow_realm_type": "login RealmType is registered with its base type u8 although protocol 2/3 carry it as u32 (pre-existing; Wireshark fetches 1..4 bytes for any FT_UINT8..32 field)"}
+    reg_text = open(os.path.join(WS, "register.txt"), encoding="utf-8").read()
+    par_text = open(os.path.join(WS, "parser.txt"), encoding="utf-8").read()
+    reg_types = {m.group(1): m.group(2) for m in re.finditer(r"\{ &(hf_\w+),\s*\{ \"[^\"]*\", \"[^\"]*\",\s*(FT_\w+),", reg_text)}
+    widths = {}
+    for m in re.finditer(r"ptvcursor_add(?:_ret_uint)?\(ptv, (hf_\w+), (\d+), ENC_\w+", par_text):
+        widths.setdefault(m.group(1), set()).add(int(m.group(2)))
+    n_types = 0
+    for hf, ws_ in sorted(widths.items()):
+        ft = reg_types.get(hf)
+        if ft is None or ft not in FT_BYTES:
+            continue
+        n_types += 1
+        if max(ws_) > FT_BYTES[ft] and hf not in HF_WIDTH_EXCEPTIONS:
+            ctx.violate("ws.hf-types", f"hf|{hf}|width", f"{hf} is registered as {ft} ({FT_BYTES[ft]} byte(s)) but a fragment adds it with {max(ws_)} bytes: the field cannot show the member "
+                        f"the definition places there (an upcast member registered with the enum's own width)", "wow_message_parser/tests/wireshark/register.txt", None)
+    if len(reg_types) < 800:
+        ctx.violate("ws.hf-types", "floor|register", f"only {len(reg_types)} registration entries recognised in register.txt (format changed?)")
+    ctx.rule("ws.hf-types", n_types, floor=700, note=f"numeric hf_ fields: registered FT width >= every width the fragments add them with ({len(HF_WIDTH_EXCEPTIONS)} tabled exception)")
     ctx.rule("ws.defuse", len(used_hf) + len(used_consts), floor=900, note=f"{len(used_hf)} hf_ fields and {len(used_consts)} enumerator constants referenced from the fragments")
     ctx.analysed.update({"programs": n_cases})
     ctx.assume("the helper functions of the dissector (add_cstring, add_packed_guid, add_aura_mask, add_update_mask, ...) consume their documented built-in type; ENC_NA is accepted for single bytes and byte arrays")
